@@ -27,10 +27,12 @@ package keys
 //@ call .Get[ ensures[cached] result1 ==> result0 != nil   // the cache only ever receives non-nil keys (Add below)
 //@ ensures[curve] result1 == nil ==> result0 != nil && result0.Curve == curve
 
+// the compressed encoding of a key is a function of the key
+//@ spec pkBytes(p *PublicKey) seq
 //@ func (*PublicKey).Bytes
 //@ assumed
 //@ pure
-//@ ensures fresh(result)
+//@ ensures fresh(result) && seq(result) == pkBytes(p)
 
 // C18, signature verification: only a signature of exactly the fixed length is ever handed to the
 // curve check; anything longer or shorter is rejected outright.
